@@ -239,6 +239,9 @@ func (c *Config) cert(hostname string) (*tls.Certificate, error) {
 	if err == nil {
 		hostname = host
 	}
+	if hostname == "" {
+		return nil, errors.New("mitm: no host name available, failed to build certificate")
+	}
 
 	c.certmu.RLock()
 	tlsc, ok := c.certs[hostname]
